@@ -14,11 +14,11 @@
    position" plus, for name-addr, three content facts the back-tracking arithmetic needs.
    ParseURI never panics on any byte string (and its error positions lie inside the input);
    totality of the look-ups incl. the empty name; relocation never corrupts.
-   Not proved: the instances for the URI parameter / URI header lists and the stateless helpers
-   called outside a message parse; that every field of a *message* is dereferenceable (proved for
+   Also the URI parameter / URI header lists (SafeURI.v).
+   Not proved: the stateless helpers (compare, signature, lookup other than the empty name) and accessors; that every field of a *message* is dereferenceable (proved for
    the leaves only; C05 covers it by oracle); these the correspondence + crash oracle cover.
    Concurrency: model functions are pure; data races are runtime behaviour outside the model. *)
-From Sipsp Require Import Harness RunLemmas Safe SafeLeaf SafeMore SafeMsg Again Resume Classify URIOffsets URIViews URILossless.
+From Sipsp Require Import Harness RunLemmas Safe SafeLeaf SafeMore SafeMsg Again SafeURI CapURI Resume Classify URIOffsets URIViews URILossless.
 Theorem C04_safety_rule : forall (St : Type) (iter : list byte -> list byte -> N -> St -> ires St)
   (P : list byte -> list byte -> N -> St -> Prop) (Q : list byte -> list byte -> N -> N -> err -> St -> Prop),
   (forall pre rest i s, P pre rest i s ->
@@ -165,5 +165,24 @@ Proof. exact (conj callid_again (conj cseq_again (conj uint_again (conj nameaddr
 Theorem C04_finished_message_called_again : forall flags buf offs m, msg_parsed m = true ->
   parse_sipmsg flags buf offs m = Done offs EBug (m <| m_buflen := nnat (length buf) |> <| m_state := MErr |>).
 Proof. exact message_again. Qed.
+(* the URI parameter and URI header lists (any flag set, any capacity): no panic, no stuck loop - the
+   re-iteration after a zero-length "more values" step always consumes a byte, because the next slot is
+   fresh (ul_wf / uh_wf: true after Init / Reset, kept by every call) - offsets in range, every stored
+   field inside the buffer *)
+Theorem C04_uri_params : forall flags buf offs l, offs <= nnat (length buf) -> ul_inv offs l ->
+  match parse_all_uri_params flags buf offs l with
+  | Done o e l' => o <= nnat (length buf) /\ ul_bnd (nnat (length buf)) l' /\ (e = EMore -> offs <= o /\ ul_inv o l')
+  | _ => False
+  end.
+Proof. exact uparams_safe. Qed.
+Theorem C04_uri_hdrs : forall flags buf offs l, offs <= nnat (length buf) -> uh_inv offs l ->
+  match parse_all_uri_hdrs flags buf offs l with
+  | Done o e l' => o <= nnat (length buf) /\ uh_bnd (nnat (length buf)) l' /\ (e = EMore -> offs <= o /\ uh_inv o l')
+  | _ => False
+  end.
+Proof. exact uhdrs_safe. Qed.
+Theorem C04_fresh_uri_lists_satisfy_the_invariants : forall n o,
+  ul_inv o (uparams_init (repeat uriparam0 n)) /\ uh_inv o (uhdrs_init (repeat tokparam0 n)).
+Proof. exact (fun n o => conj (ul_inv_init n o) (uh_inv_init n o)). Qed.
 Print Assumptions C04_message.
 Print Assumptions C04_message_every_schedule.
